@@ -677,17 +677,13 @@ static inline int safec_out_char(char character, void *buffer, size_t idx,
     (void)buffer;
     (void)idx;
     (void)maxlen;
-    if (character) {
 #ifndef __KERNEL__
-        return putchar(character);
+    return putchar(character);
 #else
-        int rc = 0;
-        rc = slprintf("%c", character);
-        return rc;
+    int rc = 0;
+    rc = slprintf("%c", character);
+    return rc;
 #endif
-    }
-    else
-        return 0;
 }
 
 #ifndef __KERNEL__
